@@ -6,7 +6,8 @@
 (*        (b relaxes a: outA must be a subset of outB and every extra peptide must be *)
 (*        attributable to the relaxation), "restrict" (b is the restricted run:       *)
 (*        outB must be a subset of outA)                                              *)
-EXTENDS Cleavage, TLC, Json, IOUtils
+(* txs: the transcripts of the input (may be empty for inputs too large for the oracle) *)
+EXTENDS Peptides, TLC, Json, IOUtils
 Cases == JsonDeserialize(IOEnv.CASES_FILE)
 ToSet(s) == {s[i] : i \in 1..Len(s)}
 VARIABLE i
@@ -34,6 +35,11 @@ Attributable(p) ==
     [] C.kind = "variant" -> \E l \in lb : C.added \in ToSet(l)
     [] OTHER -> FALSE
 
+TxOf(r) == [seq |-> r.seq, coding |-> r.coding, orfStart |-> r.orfStart, orfEnd |-> r.orfEnd,
+            startNF |-> r.startNF, endNF |-> r.endNF, sec |-> ToSet(r.sec)]
+(* Sec-truncated digestion products of the unmodified transcripts                          *)
+RefSect == UNION {HapSect(TxOf(C.txs[k]), {}, [C.a EXCEPT !.sect = TRUE]) : k \in 1..Len(C.txs)}
+
 Verdict ==
   IF C.kind = "restrict"
   THEN (Seqs(C.outB) \subseteq Seqs(C.outA) \/ PrintT(<<"V", i, "restricted_not_subset", Seqs(C.outB) \ Seqs(C.outA)>>))
@@ -41,7 +47,7 @@ Verdict ==
   ELSE LET lost == Seqs(C.outA) \ Seqs(C.outB)
            extra == Seqs(C.outB) \ Seqs(C.outA)
            unexplained == {p \in extra : ~Attributable(p)}
-       IN /\ (lost = {} \/ PrintT(<<"V", i, "lost", lost>>))
+       IN /\ (lost = {} \/ PrintT(<<"V", i, IF C.kind = "sect" /\ lost \subseteq RefSect THEN "lost_sect_reference" ELSE "lost", lost>>))
           /\ (unexplained = {} \/ PrintT(<<"V", i, "unattributable", unexplained>>))
           /\ PrintT(<<"V", i, "done">>)
 =============================================================================
